@@ -152,7 +152,21 @@ struct Value {
         }
         insert(data, s);
     }
+    /** Sub-scripts "[...]" and inline calls "name(...)" are evaluated by constructing Values recursively:
+     *  the nesting is bounded instead of running out of stack. */
+    struct DepthGuard {
+        static int& depth() { static int d = 0; return d; }
+        DepthGuard() {
+            if (++depth() > 200) {
+                fprintf(stderr, "parse error, expression nested too deeply (more than 200 levels)\n");
+                exit(1);
+            }
+        }
+        ~DepthGuard() { --depth(); }
+    };
+
     Value(const char* v, size_t vlen = 0, bool non_numeric = false) {
+        DepthGuard depth_guard;
         if (!vlen) vlen = strlen(v);
         if (vlen == 2 && v[0] == '0' && v[1] == 'x') {
             type = T_DATA;
